@@ -405,3 +405,23 @@ def history_default_condition(f):
         else:
             desc.append('other')
     return best, desc
+
+
+def guarded_by(f, g, node, names):
+    """is `node` only reached through one particular outcome of a condition that mentions one of `names` (member or variable
+    names)?  Accepts the nested form `if (m) { node }` and the guard-clause form `if (!m) return; node` alike (edge dominance)."""
+    from .C08 import edge_dominates
+    if node['id'] not in g.pos:
+        return False
+    tb = g.pos[node['id']][0]
+    for bid, b in g.blocks.items():
+        c = b.get('cond')
+        if c is None or c not in f.nodes:
+            continue
+        if not any(x.get('ref', {}).get('name') in names for x in sub(f.nodes[c])):
+            continue
+        if bid == tb:
+            continue
+        if edge_dominates(g, bid, True, tb) or edge_dominates(g, bid, False, tb):
+            return True
+    return False
